@@ -47,6 +47,11 @@ def run(ctx):
         raise vlib.MachineryError("no font dictionary cases")
     ctx.extra["font_dictionaries"] = len(fdc)
     res += absorb(ctx, ctx.run_driver(["c07", "fontdict"], fdc))
+    # one resource name bound to two fonts in one extraction (the page's /F1 and the /F1 of a form's own resources)
+    t1 = [c for c in fdc if c["st"] == "Type1" and c["sp"] in ("name", "absent") and not c["indirect"] and not c["diffs"]]
+    pairs = [{"A": a, "B": b} for a in t1 for b in t1 if a["effective"] != b["effective"]]
+    ctx.extra["font_rebindings"] = len(pairs)
+    res += absorb(ctx, ctx.run_driver(["c07", "rebind"], pairs))
     mach = [r for r in res if (r.get("sig") or "").startswith("MACHINERY")]
     if mach:
         raise vlib.MachineryError(mach[0]["what"])
